@@ -248,6 +248,7 @@ def _direct(g: list[dict], ops: list[list] | None, chooser: Callable | None) -> 
 
     info: dict[str, Any] = {"tasks": [], "events": [], "loops": 1}
     done_ops: list[list] = []
+    ctxs: dict[int, contextvars.Context] = {}  # finished invocation -> the context it ended with
     w = World(g)
     wf = SimpleNamespace(_resource_manager=w.manager)
     lines: list[str] = []
@@ -278,6 +279,9 @@ def _direct(g: list[dict], ops: list[list] | None, chooser: Callable | None) -> 
             if outcome != "cancelled":  # only the teardown cancels here
                 rec["outcome"] = outcome
                 w.events.append(f"fin:{tid}:{outcome}")
+                # what a task created by this one from now on would start with (asyncio.create_task copies the
+                # creating task's current context: every ContextVar binding, mutable objects by reference)
+                ctxs[tid] = contextvars.copy_context()
 
     async def main(loop: VLoop) -> None:
         q = Quiesce(loop)
@@ -296,7 +300,7 @@ def _direct(g: list[dict], ops: list[list] | None, chooser: Callable | None) -> 
                 op = ops[st["i"]]
                 st["i"] += 1
             else:
-                op = chooser(sorted(w.gates), offset + len(tasks))  # type: ignore[misc]
+                op = chooser(sorted(w.gates), offset + len(tasks), sorted(ctxs))  # type: ignore[misc]
                 if op is None or len(done_ops) > 200:
                     st["more"] = False
                     break
@@ -307,11 +311,22 @@ def _direct(g: list[dict], ops: list[list] | None, chooser: Callable | None) -> 
                     continue
                 info["loops"] += 1
                 return  # next segment on a fresh loop
-            if op[0] == "spawn" and op[1] in ("p", "b") and (op[1] == "p" or len(op[2]) == 1) \
-                    and all(isinstance(r, int) and 0 <= r < len(g) for r in op[2]):
+            if op[0] == "spawn" and len(op) in (3, 4) and op[1] in ("p", "b") and (op[1] == "p" or len(op[2]) == 1) \
+                    and all(isinstance(r, int) and 0 <= r < len(g) for r in op[2]) \
+                    and (len(op) == 3 or (isinstance(op[3], int) and op[3] >= 0)):
                 tid = offset + len(tasks)
-                info["tasks"].append({"mode": op[1], "reqs": list(op[2]), "outcome": None, "objs": None})
-                tasks.append(loop.create_task(invocation(tid, op[1], list(op[2]))))
+                parent = op[3] if len(op) == 4 else None
+                if parent is not None and parent not in ctxs:
+                    lines.append("disabled")  # only a finished invocation spawns (its scope is closed)
+                    continue
+                info["tasks"].append({"mode": op[1], "reqs": list(op[2]), "outcome": None, "objs": None,
+                                      "parent": parent})
+                if parent is None:
+                    tasks.append(loop.create_task(invocation(tid, op[1], list(op[2]))))
+                else:
+                    # the task tree: invocation `parent` resolved its resources and then created this task
+                    # (a step body running a child workflow, user code warming a resource before a fan-out)
+                    tasks.append(loop.create_task(invocation(tid, op[1], list(op[2])), context=ctxs[parent].copy()))
             elif op[0] == "open" and isinstance(op[1], int):
                 gate = w.gates.get(op[1])
                 if gate is None:
@@ -333,14 +348,15 @@ def _direct(g: list[dict], ops: list[list] | None, chooser: Callable | None) -> 
 
 
 def run_direct(g: list[dict], ops: list[list]) -> tuple[list[str], dict]:
-    """ops: ["spawn", "p"|"b", [rids]] | ["open", tid].  Returns (lines, info); info has
+    """ops: ["spawn", "p"|"b", [rids]] | ["spawn", "p"|"b", [rids], parent] (created by the finished
+    invocation `parent`, i.e. in a copy of its context) | ["open", tid] | ["loop"].  Returns (lines, info); info has
     per-task outcomes, injected objects and the full event list (for the monitors)."""
     lines, info, _ = _direct(g, ops, None)
     return lines, info
 
 
 def explore_direct(g: list[dict], chooser: Callable) -> list[list]:
-    """Let `chooser(gates, ntasks)` pick each op from what the real execution offers."""
+    """Let `chooser(gates, ntasks, finished)` pick each op from what the real execution offers."""
     return _direct(g, None, chooser)[2]
 
 
@@ -349,7 +365,7 @@ def op_line(op: list) -> str:
     if op[0] == "loop":
         return ""
     if op[0] == "spawn":
-        return f"spawn|{op[1]}|{','.join(map(str, op[2]))}"
+        return f"spawn|{op[1]}|{','.join(map(str, op[2]))}" + (f"|{op[3]}" if len(op) == 4 else "")
     if op[0] == "open":
         return f"open|{op[1]}"
     return str(op[1])
@@ -360,7 +376,9 @@ def op_line(op: list) -> str:
 
 
 def run_workflow(case: dict) -> tuple[list[str], list[list], dict]:
-    """case: {"g", "workers": [{"reqs", "num_workers", "count"}], "order": [worker index per event], "seed"}.
+    """case: {"g", "workers": [{"reqs", "num_workers", "count"}], "order": [worker index per event], "seed"}
+    and optionally "outer": n (the workflow is run from the body of a step, with an injected resource, of n nested
+    enclosing workflows) and "pre": [rids] (bare `manager.get`s made by the running task before `run()`).
     Returns (lines, ops, info) in the same format as the direct runs; ops are recorded as
     they happen (spawn = an invocation enters partial(); open = the scheduler opens a gate)."""
     from workflows import Context, Workflow
@@ -440,6 +458,39 @@ def run_workflow(case: dict) -> tuple[list[str], list[list], dict]:
         wf = ns["WF"](timeout=None, verbose=False)
         wf._resource_manager = w.manager
         orig = SF.partial
+        # enclosing workflows ("outer": n): a step with an injected resource of its own (own manager, own
+        # factory) runs the next workflow from its body, so the inner control loop and every inner step task
+        # descend from the context in which that step's resources were resolved
+        top = wf
+        for lvl in range(int(case.get("outer", 0))):
+            ons: dict[str, Any] = {"Workflow": Workflow, "step": step, "StartEvent": StartEvent, "StopEvent": StopEvent,
+                                   "Annotated": Annotated, "INNER": top}
+            exec(f"def outer_cfg{lvl}():\n    return {{'level': {lvl}}}\n"
+                 "from workflows.resource import Resource\n"
+                 f"class Outer{lvl}(Workflow):\n"
+                 "    @step\n"
+                 f"    async def only(self, ev: StartEvent, cfg: Annotated[dict, Resource(outer_cfg{lvl})]) -> StopEvent:\n"
+                 "        return StopEvent(result=await INNER.run())\n", ons)
+            top = ons[f"Outer{lvl}"](timeout=None, verbose=False)
+        info["ancestor_resolved"] = bool(case.get("outer")) or bool(case.get("pre"))
+
+        async def warm(r: int) -> None:
+            # "pre": the task that later runs the workflow first resolves a resource through the manager itself
+            tid = len(info["tasks"])
+            CUR.set(tid)
+            rec = {"mode": "b", "reqs": [r], "outcome": None, "objs": None}
+            record(["spawn", "b", [r]])
+            info["tasks"].append(rec)
+            outcome = "?"
+            try:
+                obj = await w.manager.get(w.desc[r])
+                outcome = w.outcome(None, [obj])
+                rec["objs"] = [w.tok(obj)]
+            except Exception as e:  # noqa: BLE001 - classified; the caller goes on to run the workflow
+                outcome = w.outcome(e, None)
+            finally:
+                rec["outcome"] = outcome
+                w.events.append(f"fin:{tid}:{outcome}")
 
         async def observed(func, step_config, event, context, workflow):  # type: ignore[no-untyped-def]
             if workflow is not wf:
@@ -480,7 +531,9 @@ def run_workflow(case: dict) -> tuple[list[str], list[list], dict]:
         SF.partial = observed
         try:
             try:
-                r = await wf.run()
+                for r0 in case.get("pre", []):
+                    await warm(r0)
+                r = await top.run()
                 info["result"] = f"ok:{r}"
             except BaseException as e:  # noqa: BLE001
                 info["result"] = f"error:{type(e).__name__}:{str(e)[:80]}"
